@@ -100,8 +100,8 @@ def fake_mpo_with_trace(n, t):
 
 
 def regenerate(ctx):
-    """coq/Gen/SmallGen.v from the current source of check_if_identity / AnalogSimParams.times / the scheduled-jump tests (fail closed)"""
-    translate_small.regenerate()
+    """coq/Gen/VerdictGen.v from the current source of check_if_identity (fail closed)"""
+    translate_small.regenerate(("verdict",))
 
 
 def correspond(ctx):
